@@ -285,6 +285,7 @@ func c09Units(tier string, seed int64) []Unit {
 			}})
 		}
 	}
+	units = append(units, checkWrapUnit())
 	return units
 }
 
